@@ -357,6 +357,25 @@ def _guarded_prop(mod, case, budget=30.0):
 
 def run_check(property_id, tier, seed, only_parts=None, survey=False,
               procs=NCPU):
+    """Run one check inside a private scratch directory that is removed
+    afterwards (workers may be terminated without running their cleanup)."""
+    import shutil
+    import tempfile
+    scratch = tempfile.mkdtemp(prefix="vf_run_")
+    os.environ["VF_SCRATCH"] = scratch
+    tempfile.tempdir = scratch
+    try:
+        return _run_check(property_id, tier, seed, only_parts, survey, procs)
+    finally:
+        try:
+            os.chdir(VERIF_DIR)
+        except OSError:
+            pass
+        shutil.rmtree(scratch, ignore_errors=True)
+
+
+def _run_check(property_id, tier, seed, only_parts=None, survey=False,
+               procs=NCPU):
     t0 = time.time()
     modname = f"vf.checks.{property_id.lower()}"
     from vf import repo
